@@ -230,12 +230,15 @@ class BoundCallable:
 
             match param.kind:
                 case p.KEYWORD_ONLY:
-                    actual.add_kwarg(name, kwargsc.pop(name, None))
+                    if name in kwargsc or param.default is p.empty:
+                        actual.add_kwarg(name, kwargsc.pop(name, None))
+                    # NOTE: else the parameter keeps its declared default
                 case p.POSITIONAL_OR_KEYWORD:
                     if name in kwargsc:
                         actual.add_kwarg(name, kwargsc.pop(name, None))
-                    else:
+                    elif argsc or param.default is p.empty:
                         actual.add_arg(name, argsc.pop(0) if argsc else arg)
+                    # NOTE: else the parameter keeps its declared default
                 case p.POSITIONAL_ONLY:
                     actual.add_arg(
                         name,
